@@ -615,6 +615,9 @@ pub fn main(opts: &Opts) {
         // free-running threads with seeded random delays at every hook site
         let c = crate::gates::Ctl::install();
         c.set_delays(opts.u64("seed", 1), delay_us);
+        if opts.get("overlap").is_some() {
+            c.set_overlap();
+        }
         Some(c)
     } else {
         None
